@@ -275,6 +275,8 @@ func NewGadgetPlaintext(params Parameters, value interface{}, levelQ, levelP, ba
 		}
 	case ring.Poly:
 		pt.Value[0] = *el.CopyNew()
+	case *ring.Poly:
+		pt.Value[0] = *el.CopyNew()
 	default:
 		return nil, fmt.Errorf("cannot NewGadgetPlaintext: unsupported type, must be either int64, uint64 or ring.Poly but is %T", el)
 	}
